@@ -560,6 +560,8 @@ def execute(trace, ctx=None):
             if op.get('tform') == 'timestamp':
                 import pandas as pd
                 tl = pd.Timestamp(t)           # a datetime subclass: every answer must be the same
+                if k % 2:
+                    tl = tl + pd.Timedelta(nanoseconds=500)     # tick data carries nanoseconds; the day is the same
                 res.probe('query-date-as-Timestamp')
             elif op.get('tform') == 'date' and op['kind'] in ('is_bday', 'is_holiday', 'adjust', 'add', 'bdays'):
                 tl = datetime.date(t.year, t.month, t.day)
@@ -602,7 +604,7 @@ def execute(trace, ctx=None):
                 if q == 'add':
                     got = lib(lambda: cal.add(tl, n, adj), what)
                 else:
-                    got = lib(lambda: cal.dt_bump(tl, '%db' % n, adj), what)
+                    got = lib(lambda: cal.dt_bump(tl, ('%db' if k % 2 else '%dB') % n, adj), what)      # the unit may be written in either case
                 if got != exp:
                     cls = 'add-single-step' if abs(n) <= 1 else 'add-table'
                     raise Violation(cls, '%s n=%d adj=%s = %s, counting day by day gives %s%s' % (what, n, adj or ref.adj, got, exp,
@@ -688,7 +690,11 @@ def execute(trace, ctx=None):
                     d0 = ds[len(seen_cb) % len(ds)]
                     seen_cb.append((d0, cal.adjust(d0), cal.add(d0, 1), cal.add(d0, -1)))
                     return grp.iloc[-1]
-                got = lib(lambda: cal.add(pd.Series([float(j) for j in range(len(ds))], index=ds), n, adj, agg), what)
+                idx_ = ds
+                if k % 3 == 0 and all(d_ == datetime.datetime(d_.year, d_.month, d_.day) for d_ in ds):
+                    idx_ = [datetime.date(d_.year, d_.month, d_.day) for d_ in ds]       # a series indexed by plain dates (a daily group-by gives that)
+                    res.probe('series-indexed-by-date-objects')
+                got = lib(lambda: cal.add(pd.Series([float(j) for j in range(len(ds))], index=idx_), n, adj, agg), what)
                 exp = {}
                 for j, e_ in enumerate(exp_idx):
                     exp[e_] = float(j)
